@@ -68,7 +68,7 @@ def strategy(shard):
                 "ncv": ncv, "nph": nph, "cvr_sample": cvr_sample,
                 # row labels of the manifest sheet (the batches are its rows, in row order, whatever their labels)
                 "index": draw(st.sampled_from(["range", "range", "gaps", "reversed", "repeated"])),
-                "small_names": draw(st.sampled_from([False, False, True]))}
+                "small_names": draw(st.sampled_from([False, False, True, "suffixes"]))}
 
     return case()
 
@@ -83,7 +83,10 @@ def _manifest(case):
     else:
         # batches are called 100, 101, ... or simply 1, 2, ... (the phantom batch that prep_manifest appends is called 1 too)
         base = 1 if case.get("small_names") else 100
-        rows = [{"Container": f"box{i % 2}", "Tabulator": 10 + i // 2, "Batch Name": base + i, "Number of Ballots": s}
+        names = [base + i for i in range(len(sizes))]
+        if case.get("small_names") == "suffixes":
+            names = [112, 12, 2, 212, 1112, 22, 1, 11][: len(sizes)]   # each a suffix of an earlier or later one
+        rows = [{"Container": f"box{i % 2}", "Tabulator": 10 + i // 2, "Batch Name": names[i], "Number of Ballots": s}
                 for i, s in enumerate(sizes)]
     df = pd.DataFrame(rows)
     ix = case.get("index", "range")
